@@ -46,6 +46,17 @@ def consumed_values(svc, handler, env):
     return []
 
 
+def bad_shape(svc, handler, vals):
+    """the last value the SCP consumed from the handler does not unpack into (status, dataset)"""
+    last = vals[-1] if vals else None
+    header = {"scp.get": 1, "scp.move": 2}.get(svc["op"], 0)
+    if svc["op"] in ("scp.find", "scp.get", "scp.move"):
+        return len(vals) > header and sd.as_pair(last) is None
+    if svc["op"] == "scp.n" and svc["prim"] != "nDelete":
+        return handler[0] in ("fv", "fnone", "fjunk") and (handler[0] != "fv" or sd.as_pair(handler[1]) is None)
+    return False
+
+
 def oracle(svc, handler, real, msg_id=7, cx_id=3):
     """[(sig, message)] — violations of C20 by the real responses"""
     out = []
@@ -59,14 +70,7 @@ def oracle(svc, handler, real, msg_id=7, cx_id=3):
     vals = consumed_values(svc, handler, env)
     # -- an exception escaped SCP(): Association._serve_request logs it and aborts the association
     if real["crashed"]:
-        last = vals[-1] if vals else None
-        header = {"scp.get": 1, "scp.move": 2}.get(svc["op"], 0)
-        bad_shape = False
-        if svc["op"] in ("scp.find", "scp.get", "scp.move"):
-            bad_shape = len(vals) > header and sd.as_pair(last) is None
-        elif svc["op"] == "scp.n" and svc["prim"] != "nDelete":
-            bad_shape = handler[0] in ("fv", "fnone", "fjunk") and (handler[0] != "fv" or sd.as_pair(handler[1]) is None)
-        if bad_shape:
+        if bad_shape(svc, handler, vals):
             out.append(("scp:value-does-not-unpack",
                         f"{name}: the handler's value does not unpack into (status, dataset); {type(real['exc']).__name__} "
                         f"escapes SCP(), no final response, the association is aborted"))
